@@ -818,7 +818,8 @@ pub fn count(xs: &[T], w: u8) -> T {
 /// `xs[i]` for a symbolic index (ite chain); caller guarantees `i < len` on the path
 pub fn select(xs: &[T], i: T) -> T {
     if let Some(v) = as_const(i) {
-        return xs[v as usize];
+        // total: an out-of-range constant index (only under a violated guard) reads the last element
+        return xs[(v as usize).min(xs.len() - 1)];
     }
     let w = width(i);
     let (lo, hi) = interval(i);
